@@ -311,7 +311,11 @@ def native_venn(rng, nsorters, chunk, last_on_boundary, silent=False):
         if last_on_boundary:
             t[-1] = 5 * chunk
             t = np.sort(np.minimum(t, 5 * chunk))
-        trains.append(t)
+        if chunk != int(chunk):
+            # a chunk size that is not a whole number of samples (20 s at a calibrated rate of 30000.03 Hz, say): spikes on either side of every seam
+            seams = np.array([int(np.floor(k_ * chunk)) + d_ for k_ in range(1, 6) for d_ in (0, 1)])
+            t = np.sort(np.r_[t, seams]).astype(np.int64)
+        trains.append(np.asarray(t, dtype=np.int64))
     chans = [rng.integers(0, 384, t.size) for t in trains]
     f = ST.spikes_venn2 if nsorters == 2 else ST.spikes_venn3
     import contextlib
@@ -355,8 +359,19 @@ def native_rank(rng):
         tau = (y * 2e-6 + x * 1e-6) / unit
         P = S0[None, :] * np.exp(-2j * np.pi * freqs[None, :] * tau[:, None])
         plane = np.fft.irfft(P, ns)
-        for niter in (1, 2, 3):
-            r1 = CZ.denoise(P, x=x, y=y, r=1, imax=None, niter=niter)
+        for niter in ((1, 2, 3) if nrows <= 9 else (1, 2)):
+            P_in = P.copy()
+            r1 = CZ.denoise(P_in, x=x, y=y, r=1, imax=None, niter=niter)
+            if not np.array_equal(P_in, P):
+                bad.append(("cadzow denoise wrote into the spectrum it was given", ncols, nrows, niter, float(np.abs(P_in - P).max())))
+            if nrows <= 9:
+                nz = rng.standard_normal(P.shape) * np.abs(P).max() * 0.3
+                N_in = P + nz
+                keep_ = N_in.copy()
+                imx = P.shape[1] // 2
+                dnz = CZ.denoise(N_in, x=x, y=y, r=1, imax=imx, niter=niter)
+                if not np.array_equal(N_in, keep_) or dnz.shape != P.shape or np.any(dnz[:, imx:] != 0):
+                    bad.append(("cadzow denoise with imax: input changed, or bins from imax on not left at zero", ncols, nrows, niter))
             if not np.allclose(r1, P, atol=1e-6 * np.abs(P).max()):
                 bad.append(("cadzow plane wave at rank one not preserved", ncols, nrows, niter, float(np.abs(r1 - P).max() / np.abs(P).max())))
             ff = CZ.denoise(WAV, x=x, y=y, r=r_full, imax=None, niter=niter)
@@ -453,6 +468,9 @@ def b_native(B):
             # sorters that are silent during whole chunks / stop before the others
             tot, want = native_venn(rng, ns, chunk, False, silent=True)
             B.case(("venn_silent_chunks", ns, chunk), tot == want, detail={"attributed": tot, "spikes": want})
+        for chunk in (1000.6, 333.25):
+            tot, want = native_venn(rng, ns, chunk, False)
+            B.case(("venn_chunk_size_not_a_whole_number", ns, chunk), tot == want, detail={"attributed": tot, "spikes": want})
     bad = native_rank(rng)
     B.case("rank_reduction", not bad, detail=bad[:5])
     bad = native_savgol(rng)
